@@ -115,7 +115,10 @@ Conds == {"bad-request", "conflict", "feature-not-implemented", "forbidden", "go
           "resource-constraint", "service-unavailable", "subscription-required",
           "undefined-condition", "unexpected-request"}
 P(l, t) == [lang |-> l, text |-> t]
-(* stanza.Error.Text is a map from language to text: pairs with distinct languages    *)
+(* stanza.Error.Text is a map from language to text: pairs with distinct languages;    *)
+(* every subset is a value (0 to 4 texts: no tag, one, two or three different tags,   *)
+(* with and without an untagged text); a map has no order, the views are compared as  *)
+(* sets of (language, text) pairs                                                     *)
 ErrPairs == {P("S_empty", "S_xml"), P("S_en", "S_uni"), P("S_de", "S_ml"), P("S_uni", "S_empty")}
 StanzaErrors == [by : JidSyms, type : ErrTypes, cond : Conds, texts : SUBSET ErrPairs]
 
@@ -136,10 +139,20 @@ StreamConds == {"bad-format", "bad-namespace-prefix", "conflict", "connection-ti
 (* stream.Error.Text is a list: order and repetitions are part of the value *)
 StreamPairs == {P("S_empty", "S_xml"), P("S_en", "S_uni"), P("S_en", "S_empty")}
 SeqsUpTo(S, n) == UNION {[1..k -> S] : k \in 0..n}
+(* "multi-language error texts": 0, 1, 2 and 3 texts whose language tags range over    *)
+(* EVERY sequence of ErrLangs (no tag, two or three different tags, the same tag       *)
+(* twice, tagged and untagged texts in any order); the text at each position is        *)
+(* different, so that a tag attached to the wrong text, a lost, duplicated or          *)
+(* reordered text changes the value.                                                   *)
+ErrLangs == IF Quick THEN {"S_empty", "S_en", "S_de"} ELSE {"S_empty", "S_en", "S_de", "S_uni"}
+TextAt == <<"S_xml", "S_uni", "S_ml">>
+MaxTexts == 3
+MultiLangTexts == {[i \in 1..Len(ls) |-> P(ls[i], TextAt[i])] : ls \in SeqsUpTo(ErrLangs, MaxTexts)}
+StreamTexts == SeqsUpTo(StreamPairs, 2) \cup MultiLangTexts
 (* Content: "The content of the error condition element. This should only be used by  *)
 (* see-other-host errors." (stream/error.go) - quantified only there.                 *)
 StreamErrors ==
-  {e \in [err : StreamConds, texts : SeqsUpTo(StreamPairs, 2), content : {"S_empty", "S_a", "S_xml"},
+  {e \in [err : StreamConds, texts : StreamTexts, content : {"S_empty", "S_a", "S_xml"},
           app : BOOLEAN] : e.content # "S_empty" => e.err = "see-other-host"}
 (* the application payload is write-only (there is no accessor): not part of the decoded value *)
 StreamErrorNorm(e) == [err |-> e.err, texts |-> e.texts, content |-> e.content]
@@ -147,8 +160,9 @@ StreamErrorNorm(e) == [err |-> e.err, texts |-> e.texts, content |-> e.content]
 (* ------------------------------------------------------------------ helper scenarios *)
 Payloads == {"P_none", "P_elem", "P_text", "P_nested"}
 HelpErrors == {[by |-> "J_zero", type |-> "cancel", cond |-> "item-not-found", texts |-> {}],
+               \* an untagged text and two texts with different language tags
                [by |-> "J_fullx", type |-> "wait", cond |-> "undefined-condition",
-                texts |-> {P("S_empty", "S_xml"), P("S_en", "S_uni")}]}
+                texts |-> {P("S_empty", "S_xml"), P("S_en", "S_uni"), P("S_de", "S_ml")}]}
 HelpStanzas(kind) == [ns : NS, id : {"S_empty", "S_xml"}, to : {"J_zero", "J_bare", "J_fullx"},
                       from : {"J_zero", "J_full", "J_fullx"}, lang : {"S_empty", "S_en"}, type : Types(kind)]
 Helps(kind) == [st : HelpStanzas(kind), pl : Payloads, er : HelpErrors]
